@@ -175,33 +175,32 @@ Section Single.
 
   Lemma restrict_spec scope cand s' :
     restrict scope cand = Some s' ->
-    forall y, In y s' <-> In y cand /\ match scope with Some ((_ :: _) as s) => In y s | _ => True end.
+    forall y, In y s' <-> In y cand /\ match scope with Some s => In y s | None => True end.
   Proof.
-    unfold restrict. destruct scope as [[|z s]|].
-    - intros E. injection E as <-. tauto.
-    - destruct (filter (fun x => zmem x (z :: s)) cand) eqn:Ef; [discriminate|]. intros E. injection E as <-.
+    unfold restrict. destruct scope as [s|].
+    - destruct (filter (fun x => zmem x s) cand) eqn:Ef; [discriminate|]. intros E. injection E as <-.
       intros y. rewrite <- Ef, filter_In, zmem_In. tauto.
     - intros E. injection E as <-. tauto.
   Qed.
 
   Lemma restrict_some scope cand y :
-    In y cand -> match scope with Some ((_ :: _) as s) => In y s | _ => True end -> exists s', restrict scope cand = Some s'.
+    In y cand -> match scope with Some s => In y s | None => True end -> exists s', restrict scope cand = Some s'.
   Proof.
-    unfold restrict. destruct scope as [[|z s]|]; eauto. intros Hc Hs.
-    destruct (filter (fun x => zmem x (z :: s)) cand) eqn:Ef; [|eauto].
-    assert (In y (filter (fun x => zmem x (z :: s)) cand)) by (apply filter_In; split; [exact Hc | apply zmem_In; exact Hs]).
+    unfold restrict. destruct scope as [s|]; eauto. intros Hc Hs.
+    destruct (filter (fun x => zmem x s) cand) eqn:Ef; [|eauto].
+    assert (In y (filter (fun x => zmem x s) cand)) by (apply filter_In; split; [exact Hc | apply zmem_In; exact Hs]).
     rewrite Ef in H. destruct H.
   Qed.
 
   (* one pattern component against one target component under a scope *)
   Lemma restricted_match_iff c clo scope cand (fi : mapping) :
-    c <> [] -> lin_ok q_atoms q_bonds clo [] c -> scope <> Some [] -> In cand tcomps ->
+    c <> [] -> lin_ok q_atoms q_bonds clo [] c -> In cand tcomps ->
     (exists s', restrict scope cand = Some s' /\ In fi (get_mapping amatch bmatch c clo o_atoms o_bonds s')) <->
     (emb (map fst4 c) (scope_list scope) fi /\ forall y, In y (image fi) -> In y cand).
   Proof.
-    intros Hc Hl Hsc Hcand.
-    assert (Hin_scope : forall y, In y (scope_list scope) <-> In y (keys o_atoms) /\ match scope with Some ((_ :: _) as s) => In y s | _ => True end).
-    { intros y. unfold scope_list. destruct scope as [[|z s]|]; [congruence | | tauto]. rewrite filter_In, zmem_In. tauto. }
+    intros Hc Hl Hcand.
+    assert (Hin_scope : forall y, In y (scope_list scope) <-> In y (keys o_atoms) /\ match scope with Some s => In y s | None => True end).
+    { intros y. unfold scope_list. destruct scope as [s|]; [|tauto]. rewrite filter_In, zmem_In. tauto. }
     split.
     - intros (s' & Hr & Hf). pose proof (get_mapping_sound _ _ _ _ amatch bmatch _ _ clo _ _ s' wf_q wf_o c Hc Hl fi Hf) as E. split.
       + apply (emb_scope_mono _ s'); [exact E|]. intros y Hy. destruct (emb_image_atom _ _ _ y E Hy) as [Ha Hs].
@@ -230,15 +229,15 @@ Section Single.
     iso_stream amatch bmatch [c] clo o_atoms o_bonds tcomps scope = Ok (single_stream c clo scope).
   Proof. reflexivity. Qed.
 
-  (* a non-empty (or absent) scope: exactly the embeddings whose image lies inside the scope, each once *)
-  Theorem scope_exact_partial : forall c clo scope,
-    c <> [] -> lin_ok q_atoms q_bonds clo [] c -> scope <> Some [] ->
+  (* any scope (absent, empty, partial, with foreign numbers): exactly the embeddings whose image lies inside the scope, each once *)
+  Theorem scope_exact : forall c clo scope,
+    c <> [] -> lin_ok q_atoms q_bonds clo [] c ->
     NoDup (single_stream c clo scope) /\
     forall f, In f (single_stream c clo scope) <-> emb (map fst4 c) (scope_list scope) f.
   Proof.
-    intros c clo scope Hc Hl Hsc.
-    assert (Hin_scope : forall y, In y (scope_list scope) <-> In y (keys o_atoms) /\ match scope with Some ((_ :: _) as s) => In y s | _ => True end).
-    { intros y. unfold scope_list. destruct scope as [[|z s]|]; [congruence | | tauto]. rewrite filter_In, zmem_In. tauto. }
+    intros c clo scope Hc Hl.
+    assert (Hin_scope : forall y, In y (scope_list scope) <-> In y (keys o_atoms) /\ match scope with Some s => In y s | None => True end).
+    { intros y. unfold scope_list. destruct scope as [s|]; [|tauto]. rewrite filter_In, zmem_In. tauto. }
     assert (Hsound : forall cand s' f, In cand tcomps -> restrict scope cand = Some s' ->
                        In f (get_mapping amatch bmatch c clo o_atoms o_bonds s') ->
                        emb (map fst4 c) (scope_list scope) f /\ (forall y, In y (image f) -> In y cand) /\ f <> []).
@@ -327,14 +326,23 @@ Proof.
   - cbn [keys map fst] in Hn. apply NoDup_remove_2 in Hn. intros H. apply Hn. apply in_or_app. left. exact H.
 Qed.
 
-Lemma merge_concat : forall (fs : list mapping), NoDup (concat (map (@keys Z Z) fs)) -> merge fs = concat fs.
+Lemma fold_update_concat : forall (fs : list mapping) (d : mapping),
+  NoDup (keys d ++ concat (map (@keys Z Z) fs)) -> fold_left dict_update fs d = d ++ concat fs.
 Proof.
-  intros [|f fr]; [reflexivity|]. cbn [merge concat map]. revert f. induction fr as [|g fr IH]; intros f Hn; cbn [fold_left concat map] in *.
+  induction fs as [|g fr IH]; intros d Hn; cbn [fold_left concat map] in *.
   - symmetry. apply app_nil_r.
   - rewrite dict_update_fresh.
     + rewrite IH; [rewrite <- app_assoc; reflexivity|]. unfold keys in *. rewrite map_app, <- app_assoc. exact Hn.
     + rewrite app_assoc in Hn. apply NoDup_app_l in Hn. exact Hn.
 Qed.
+
+(* mapping = {}; for m in match: mapping.update(m) *)
+Lemma merge_concat : forall (fs : list mapping), NoDup (concat (map (@keys Z Z) fs)) -> merge fs = concat fs.
+Proof. intros fs Hn. unfold merge. rewrite fold_update_concat; [reflexivity | exact Hn]. Qed.
+
+(* mapping = match[0].copy(); for m in match[1:]: mapping.update(m)   (_get_automorphism_mapping) *)
+Lemma merge_copy_concat : forall (fs : list mapping), NoDup (concat (map (@keys Z Z) fs)) -> merge_copy fs = concat fs.
+Proof. intros [|f fr] Hn; [reflexivity|]. cbn [merge_copy concat]. apply fold_update_concat. exact Hn. Qed.
 
 (* ---------- Isomorphism._get_mapping with a pattern of several components ---------- *)
 Section Multi.
@@ -362,9 +370,9 @@ Section Multi.
                            | Some mappers => map merge (lazy_product mappers)
                            end) (permutations (length comps) tcomps).
 
-  Lemma iso_stream_multi scope : (2 <= length comps)%nat ->
+  Lemma iso_stream_multi scope : length comps <> 1%nat ->
     iso_stream amatch bmatch comps clo o_atoms o_bonds tcomps scope = Ok (multi_stream scope).
-  Proof. unfold iso_stream, multi_stream. destruct comps as [|c1 [|c2 r]]; cbn [length]; try lia. reflexivity. Qed.
+  Proof. unfold iso_stream, multi_stream. destruct comps as [|c1 [|c2 r]]; cbn [length]; intros H; [reflexivity | exfalso; apply H; reflexivity | reflexivity]. Qed.
 
   (* every pattern component is embedded (induced, inside the scope) into a target component of its own *)
   Definition multi_embedding (scope : option (list Z)) (f : mapping) : Prop :=
@@ -400,17 +408,17 @@ Section Multi.
         rewrite Er, Eb. exists (get_mapping amatch bmatch c clo o_atoms o_bonds s' :: ms). split; [reflexivity | constructor; assumption].
   Qed.
 
-  Lemma assigned_iff scope : scope <> Some [] -> forall cs cands fs,
+  Lemma assigned_iff scope : forall cs cands fs,
     (forall c, In c cs -> c <> [] /\ lin_ok q_atoms q_bonds clo [] c) -> (forall cand, In cand cands -> In cand tcomps) ->
     (assigned scope cs cands fs <->
      Forall2 (fun c fi => emb (map fst4 c) (slist scope) fi) cs fs /\
      Forall2 (fun cand fi => In cand tcomps /\ forall y, In y (image fi) -> In y cand) cands fs).
   Proof.
-    intros Hsc. induction cs as [|c cr IH]; intros cands fs Hcs Hcands.
+    induction cs as [|c cr IH]; intros cands fs Hcs Hcands.
     - destruct cands, fs; cbn; split; try tauto; try (intros [F1 F2]; inversion F1; inversion F2; fail). intros _. split; constructor.
     - destruct cands as [|cand dr], fs as [|fi fr]; cbn [assigned]; try (split; [intros [] | intros [F1 F2]; inversion F1; inversion F2]; fail).
       destruct (Hcs c (or_introl eq_refl)) as [Hne Hl].
-      rewrite (restricted_match_iff QA A QB B amatch bmatch q_atoms q_bonds o_atoms o_bonds tcomps wf_q wf_o c clo scope cand fi Hne Hl Hsc
+      rewrite (restricted_match_iff QA A QB B amatch bmatch q_atoms q_bonds o_atoms o_bonds tcomps wf_q wf_o c clo scope cand fi Hne Hl
                  (Hcands cand (or_introl eq_refl))).
       rewrite (IH dr fr (fun c' H => Hcs c' (or_intror H)) (fun c' H => Hcands c' (or_intror H))). split.
       + intros ((E & Him) & F1 & F2). split; constructor; try assumption. split; [apply Hcands; left; reflexivity | exact Him].
@@ -425,10 +433,9 @@ Section Multi.
     concat (map (@keys Z Z) fs) = concat (map (map (@fst4 QA QB)) cs).
   Proof. induction 1 as [|c fi cs fs H _ IH]; [reflexivity|]. cbn. rewrite IH. destruct H as (Hk & _). unfold keys. rewrite Hk. reflexivity. Qed.
 
-  Theorem multi_component_exact : forall scope, scope <> Some [] ->
-    forall f, In f (multi_stream scope) <-> multi_embedding scope f.
+  Theorem multi_component_exact : forall scope f, In f (multi_stream scope) <-> multi_embedding scope f.
   Proof.
-    intros scope Hsc f. unfold multi_stream. rewrite in_flat_map.
+    intros scope f. unfold multi_stream. rewrite in_flat_map.
     destruct c_ok as (P & Hl & _). destruct tc_ok as (_ & _ & Tn & _).
     assert (Hkeys : NoDup (concat (map (map (@fst4 QA QB)) comps))) by (apply (Permutation_NoDup (Permutation_sym P)); apply wf_q).
     split.
@@ -436,7 +443,7 @@ Section Multi.
       destruct (build_mappers QA A QB B amatch bmatch clo o_atoms o_bonds scope comps cands) as [mappers|] eqn:Eb; [|destruct Hf].
       apply in_map_iff in Hf. destruct Hf as (fs & <- & Hfs). apply lazy_product_In in Hfs.
       assert (Ha : assigned scope comps cands fs) by (apply (build_mappers_spec scope comps cands fs Plen); exists mappers; split; assumption).
-      apply (assigned_iff scope Hsc comps cands fs Hl Pincl) in Ha. destruct Ha as [F1 F2].
+      apply (assigned_iff scope comps cands fs Hl Pincl) in Ha. destruct Ha as [F1 F2].
       exists fs, cands. split; [|split; [exact F1 | split; [exact F2 | apply Pn; exact Tn]]].
       apply merge_concat. rewrite (emb_keys_concat scope comps fs F1). exact Hkeys.
     - intros (fs & cands & -> & F1 & F2 & Hn).
@@ -444,7 +451,7 @@ Section Multi.
       { clear -F2. induction F2 as [|cand fi dr fr H _ IH]; [intros ? []|]. intros z [<-|Hz]; [apply H | apply IH; exact Hz]. }
       assert (Hlen : length cands = length comps) by (rewrite (Forall2_length _ _ _ F1), (Forall2_length _ _ _ F2); reflexivity).
       exists cands. split; [rewrite <- Hlen; apply permutations_complete; assumption|].
-      assert (Ha : assigned scope comps cands fs) by (apply (assigned_iff scope Hsc comps cands fs Hl Hincl); split; assumption).
+      assert (Ha : assigned scope comps cands fs) by (apply (assigned_iff scope comps cands fs Hl Hincl); split; assumption).
       apply (build_mappers_spec scope comps cands fs Hlen) in Ha. destruct Ha as (mappers & Eb & Hfs). rewrite Eb.
       apply in_map_iff. exists fs. split; [|apply lazy_product_In; exact Hfs].
       apply merge_concat. rewrite (emb_keys_concat scope comps fs F1). exact Hkeys.
@@ -464,7 +471,6 @@ Section Whole.
   Hypothesis wf_q : wf_adj q_atoms q_bonds.
   Hypothesis wf_o : wf_adj o_atoms o_bonds.
   Hypothesis tc_ok : tcomps_ok A B o_atoms o_bonds tcomps.
-  Hypothesis q_nonempty : q_atoms <> [].
 
   Notation emb := (induced_embedding amatch bmatch q_atoms q_bonds o_atoms o_bonds).
   Notation membed := (multi_embedding QA A QB B amatch bmatch q_atoms q_bonds o_atoms o_bonds tcomps).
@@ -479,25 +485,25 @@ Section Whole.
     - intros (fs & cands & -> & F1 & _). inversion F1 as [|? fi ? fr G1 G2]; subst. inversion G2; subst. cbn. rewrite app_nil_r. exact G1.
   Qed.
 
-  (* for a non-empty pattern and a scope that is absent or non-empty: the stream before the filter holds exactly the
-     embeddings (every pattern component induced-embedded inside the scope, into a target component of its own) *)
+  (* ANY pattern (also the one without atoms) and ANY scope: the stream before the filter holds exactly the embeddings
+     (every pattern component induced-embedded inside the scope, into a target component of its own) *)
   Theorem get_mapping_exact : forall comps clo flt scope,
-    compile_query q_atoms q_bonds = Ok (comps, clo) -> scope <> Some [] ->
+    compile_query q_atoms q_bonds = Ok (comps, clo) ->
     exists stream,
       mol_get_mapping amatch bmatch q_atoms q_bonds o_atoms o_bonds tcomps flt scope = Ok (auto_filter flt [] stream) /\
       forall f, In f stream <-> membed comps scope f.
   Proof.
-    intros comps clo flt scope Hc Hsc. pose proof (compile_query_spec _ _ _ _ wf_q _ _ Hc) as Hok.
+    intros comps clo flt scope Hc. pose proof (compile_query_spec _ _ _ _ wf_q _ _ Hc) as Hok.
     unfold mol_get_mapping, iso_get_mapping. rewrite Hc.
-    destruct comps as [|c [|c2 r]].
-    - exfalso. destruct Hok as (P & _). cbn in P. apply Permutation_nil in P. destruct q_atoms; [congruence | discriminate].
-    - rewrite (iso_stream_single QA A QB B amatch bmatch o_atoms o_bonds tcomps c clo scope). eexists. split; [reflexivity|].
-      intros f. destruct Hok as (P & Hl & Hcl). destruct (Hl c (or_introl eq_refl)) as [Hne Hlin].
-      rewrite (proj2 (scope_exact_partial QA A QB B amatch bmatch q_atoms q_bonds o_atoms o_bonds tcomps wf_q wf_o tc_ok c clo scope Hne Hlin Hsc) f).
-      apply single_is_multi. repeat split; assumption.
-    - rewrite (iso_stream_multi QA A QB B amatch bmatch o_atoms o_bonds tcomps (c :: c2 :: r) clo scope) by (cbn; lia).
+    destruct (Nat.eq_dec (length comps) 1) as [E1|E1].
+    - destruct comps as [|c [|c2 r]]; try discriminate.
+      rewrite (iso_stream_single QA A QB B amatch bmatch o_atoms o_bonds tcomps c clo scope). eexists. split; [reflexivity|].
+      intros f. pose proof Hok as (P & Hl & Hcl). destruct (Hl c (or_introl eq_refl)) as [Hne Hlin].
+      rewrite (proj2 (scope_exact QA A QB B amatch bmatch q_atoms q_bonds o_atoms o_bonds tcomps wf_q wf_o tc_ok c clo scope Hne Hlin) f).
+      apply (single_is_multi c clo scope f Hok).
+    - rewrite (iso_stream_multi QA A QB B amatch bmatch q_atoms q_bonds o_atoms o_bonds tcomps comps clo Hok scope E1).
       eexists. split; [reflexivity|]. intros f.
-      apply (multi_component_exact QA A QB B amatch bmatch q_atoms q_bonds o_atoms o_bonds tcomps (c :: c2 :: r) clo wf_q wf_o tc_ok Hok scope Hsc).
+      apply (multi_component_exact QA A QB B amatch bmatch q_atoms q_bonds o_atoms o_bonds tcomps comps clo wf_q wf_o tc_ok Hok scope).
   Qed.
 
   (* the operators agree with the set of embeddings *)
@@ -506,7 +512,7 @@ Section Whole.
     exists b, is_substructure amatch bmatch q_atoms q_bonds o_atoms o_bonds tcomps = Ok b /\
               (b = true <-> exists f, membed comps None f).
   Proof.
-    intros comps clo Hc. destruct (get_mapping_exact comps clo false None Hc ltac:(discriminate)) as (stream & E & Hs).
+    intros comps clo Hc. destruct (get_mapping_exact comps clo false None Hc) as (stream & E & Hs).
     unfold is_substructure. rewrite E.
     assert (Ef : auto_filter false [] stream = stream) by apply automorphism_filter_exact. rewrite Ef.
     destruct stream as [|f0 r].
@@ -613,42 +619,71 @@ Proof.
     + apply negb_true_iff in E. assert (zmem y c2 = true) by (apply zmem_In; exact Hy2). congruence.
 Qed.
 
-(* ---------- the two places where the unchanged code violates the full statement ---------- *)
-(* pattern C, target C-C-O (integer labels 6 / 8, single bonds) *)
-Definition ex_q_atoms : list (Z * Z) := [(1, 6)].
-Definition ex_q_bonds : list (Z * list (Z * Z)) := [(1, [])].
-Definition ex_o_atoms : list (Z * Z) := [(1, 6); (2, 6); (3, 8)].
-Definition ex_o_bonds : list (Z * list (Z * Z)) := [(1, [(2, 1)]); (2, [(1, 1); (3, 1)]); (3, [(2, 1)])].
+Lemma flat_map_nil_all {S T} (g : S -> list T) (l : list S) : (forall x, In x l -> g x = []) -> flat_map g l = [].
+Proof. induction l as [|x r IH]; intros H; [reflexivity|]. cbn. rewrite (H x (or_introl eq_refl)), IH; [reflexivity|]. intros y Hy. apply H. right. exact Hy. Qed.
+
+(* ---------- the two boundary inputs on which the code used to violate the statement (fixed in /repo: a6a7a4a, 3d5c51c) ---------- *)
+Section Boundary.
+  Variables QA A QB B : Type.
+  Variable amatch : QA -> A -> bool.
+  Variable bmatch : QB -> B -> bool.
+
+  (* an EMPTY searching_scope: no mapping at all for a pattern with at least one atom, whatever the target is
+     (no well-formedness hypothesis is needed: `searching_scope.intersection(candidate)` is empty for every candidate) *)
+  Theorem empty_scope_no_mapping : forall (comps : list (list (lentry QA QB))) clo (o_atoms : list (Z * A)) o_bonds tcomps flt,
+    comps <> [] -> iso_get_mapping amatch bmatch comps clo o_atoms o_bonds tcomps flt (Some []) = Ok [].
+  Proof.
+    intros comps clo o_atoms o_bonds tcomps flt Hne. unfold iso_get_mapping.
+    assert (Hr : forall cand, restrict (Some []) cand = None).
+    { intros cand. unfold restrict. replace (filter (fun x => zmem x []) cand) with (@nil Z); [reflexivity|].
+      induction cand as [|x r IH]; [reflexivity | cbn; exact IH]. }
+    assert (E : iso_stream amatch bmatch comps clo o_atoms o_bonds tcomps (Some []) = Ok []).
+    { unfold iso_stream. destruct comps as [|c [|c2 r]]; [congruence | |].
+      - f_equal. induction tcomps as [|cand tr IH]; [reflexivity|]. cbn [flat_map]. rewrite Hr. exact IH.
+      - f_equal. apply flat_map_nil_all. intros cands Hp. apply permutations_sound in Hp. destruct Hp as (Hlen & _).
+        destruct cands as [|cand dr]; [discriminate|]. cbn [build_mappers]. rewrite Hr. reflexivity. }
+    rewrite E. destruct flt; reflexivity.
+  Qed.
+
+  (* a pattern WITHOUT atoms: exactly one mapping, the empty one, for every target, filter value and scope *)
+  Theorem empty_pattern_one_embedding : forall (o_atoms : list (Z * A)) (o_bonds : list (Z * list (Z * B))) tcomps flt scope,
+    mol_get_mapping amatch bmatch (@nil (Z * QA)) (@nil (Z * list (Z * QB))) o_atoms o_bonds tcomps flt scope = Ok [[]].
+  Proof. intros. destruct flt; reflexivity. Qed.
+End Boundary.
+
+(* ---------- a concrete instance of all hypotheses (non-vacuity) ---------- *)
+(* pattern C.O (two components), target C-C-O . O  (integer labels 6 / 8, single bonds = 1) *)
+Definition ex_q_atoms : list (Z * Z) := [(1, 6); (2, 8)].
+Definition ex_q_bonds : list (Z * list (Z * Z)) := [(1, []); (2, [])].
+Definition ex_o_atoms : list (Z * Z) := [(1, 6); (2, 6); (3, 8); (4, 8)].
+Definition ex_o_bonds : list (Z * list (Z * Z)) := [(1, [(2, 1)]); (2, [(1, 1); (3, 1)]); (3, [(2, 1)]); (4, [])].
+Definition ex_tcomps : list (list Z) := [[1; 2; 3]; [4]].
 
 Lemma Zeqb_eq a b : Z.eqb a b = true -> a = b.
 Proof. apply Z.eqb_eq. Qed.
 
-(* scope_exact_partial needs `scope <> Some []`: with the EMPTY scope the unchanged code searches everything.
-   All other hypotheses hold for this witness, two mappings are produced, and none of them lies inside the (empty) scope. *)
-Theorem scope_exact_refuted :
-  exists (c : list (lentry Z Z)) (clo : closures_t Z) (tcomps : list (list Z)),
-    wf_adj ex_q_atoms ex_q_bonds /\ wf_adj ex_o_atoms ex_o_bonds /\ tcomps_ok Z Z ex_o_atoms ex_o_bonds tcomps /\
-    compile_query ex_q_atoms ex_q_bonds = Ok ([c], clo) /\ c <> [] /\ lin_ok ex_q_atoms ex_q_bonds clo [] c /\
-    single_stream Z Z Z Z Z.eqb Z.eqb ex_o_atoms ex_o_bonds tcomps c clo (Some []) = [[(1, 2)]; [(1, 1)]] /\
-    forall f, ~ induced_embedding Z.eqb Z.eqb ex_q_atoms ex_q_bonds ex_o_atoms ex_o_bonds (map fst4 c) (scope_list Z ex_o_atoms (Some [])) f.
+(* the hypotheses of get_mapping_exact hold, the search yields four mappings (C on either carbon and O on the lone
+   water, or C on a carbon ... never C and O inside the same target component), and with a scope {2, 3, 4, 99} two *)
+Theorem example_instance :
+  wf_adj ex_q_atoms ex_q_bonds /\ wf_adj ex_o_atoms ex_o_bonds /\ tcomps_ok Z Z ex_o_atoms ex_o_bonds ex_tcomps /\
+  compile_query ex_q_atoms ex_q_bonds = Ok ([[(1, None, 6, None)]; [(2, None, 8, None)]], []) /\
+  mol_get_mapping Z.eqb Z.eqb ex_q_atoms ex_q_bonds ex_o_atoms ex_o_bonds ex_tcomps false None
+    = Ok [[(1, 2); (2, 4)]; [(1, 1); (2, 4)]] /\
+  mol_get_mapping Z.eqb Z.eqb ex_q_atoms ex_q_bonds ex_o_atoms ex_o_bonds ex_tcomps true (Some [2; 3; 4; 99])
+    = Ok [[(1, 2); (2, 4)]] /\
+  multi_embedding Z Z Z Z Z.eqb Z.eqb ex_q_atoms ex_q_bonds ex_o_atoms ex_o_bonds ex_tcomps
+    [[(1, None, 6, None)]; [(2, None, 8, None)]] None [(1, 2); (2, 4)].
 Proof.
-  exists [(1, None, 6, None)], [], [[1; 2; 3]].
   assert (Wq : wf_adj ex_q_atoms ex_q_bonds) by (apply (wf_adjb_sound Z.eqb Zeqb_eq); vm_compute; reflexivity).
-  split; [exact Wq|]. split; [apply (wf_adjb_sound Z.eqb Zeqb_eq); vm_compute; reflexivity|].
-  split; [apply tcomps_okb_sound; vm_compute; reflexivity|].
-  assert (Hc : compile_query ex_q_atoms ex_q_bonds = Ok ([[(1, None, 6, None)]], [])) by (vm_compute; reflexivity).
-  split; [exact Hc|]. split; [discriminate|].
-  split; [destruct (compile_query_spec _ _ _ _ Wq _ _ Hc) as (_ & Hl & _); apply (Hl _ (or_introl eq_refl))|].
-  split; [vm_compute; reflexivity|].
-  intros f (Hk & _ & Hat & _). cbn in Hk. destruct f as [|[x y] f]; [discriminate|].
-  destruct (Hat x y (or_introl eq_refl)) as [Hs _]. cbn in Hs. exact Hs.
-Qed.
-
-(* a pattern without atoms: the one (empty) embedding is expected, the unchanged code raises IndexError *)
-Theorem empty_pattern_refuted : forall (QA A QB B : Type) (amatch : QA -> A -> bool) (bmatch : QB -> B -> bool)
-    (o_atoms : list (Z * A)) (o_bonds : list (Z * list (Z * B))) tcomps flt scope,
-  mol_get_mapping amatch bmatch [] [] o_atoms o_bonds tcomps flt scope = Err IndexError /\
-  induced_embedding amatch bmatch [] [] o_atoms o_bonds [] (keys o_atoms) [].
-Proof.
-  intros. split; [reflexivity|]. unfold induced_embedding. cbn. split; [reflexivity|]. split; [constructor|]. split; intros; contradiction.
+  assert (Wo : wf_adj ex_o_atoms ex_o_bonds) by (apply (wf_adjb_sound Z.eqb Zeqb_eq); vm_compute; reflexivity).
+  assert (Tc : tcomps_ok Z Z ex_o_atoms ex_o_bonds ex_tcomps) by (apply tcomps_okb_sound; vm_compute; reflexivity).
+  assert (Hc : compile_query ex_q_atoms ex_q_bonds = Ok ([[(1, None, 6, None)]; [(2, None, 8, None)]], [])) by (vm_compute; reflexivity).
+  split; [exact Wq|]. split; [exact Wo|]. split; [exact Tc|]. split; [exact Hc|].
+  assert (E1 : mol_get_mapping Z.eqb Z.eqb ex_q_atoms ex_q_bonds ex_o_atoms ex_o_bonds ex_tcomps false None
+               = Ok [[(1, 2); (2, 4)]; [(1, 1); (2, 4)]]) by (vm_compute; reflexivity).
+  split; [exact E1|]. split; [vm_compute; reflexivity|].
+  destruct (get_mapping_exact Z Z Z Z Z.eqb Z.eqb ex_q_atoms ex_q_bonds ex_o_atoms ex_o_bonds ex_tcomps Wq Wo Tc _ _ false None Hc)
+    as (stream & E & Hs).
+  rewrite E1 in E. injection E as E. replace (auto_filter false [] stream) with stream in E by (symmetry; apply automorphism_filter_exact).
+  apply Hs. rewrite <- E. left. reflexivity.
 Qed.
